@@ -117,10 +117,65 @@ func capScenarios(tier string) []clustermc.Scenario {
 	return out
 }
 
+// extScenarios: extended resources, MIG instances and pod slots, with near-zero cpu/memory requests
+// (the scheduler's "best effort" shortcut must not apply to a pod that asks for a countable resource).
+func extScenarios(tier string) []clustermc.Scenario {
+	const foo, mig = "example.com/foo", "nvidia.com/mig-1g.5gb"
+	tiny := func(extra map[string]int64) world.Shape { return world.Shape{CPUm: 5, MemMi: 5, Extra: extra} }
+	norm := func(extra map[string]int64) world.Shape { return world.Shape{CPUm: 1000, MemMi: 512, Extra: extra} }
+	one := func(tag, st string, sh world.Shape) menuItem {
+		node := ""
+		if st != "" {
+			node = "n1"
+		}
+		return menuItem{tag: tag, queue: "qa", pc: "p50", pods: []world.PodSpec{{Shape: sh, State: st, Node: node}}}
+	}
+	menu := []menuItem{
+		one("pend-foo-tiny", "", tiny(map[string]int64{foo: 1})),
+		one("pend-foo", "", norm(map[string]int64{foo: 1})),
+		one("pend-mig-tiny", "", tiny(map[string]int64{mig: 1})),
+		one("pend-besteffort", "", world.Shape{}),
+		one("pend-foo2-tiny", "", tiny(map[string]int64{foo: 2})),
+		one("run-foo", world.StRunning, norm(map[string]int64{foo: 1})),
+		one("term-foo", world.StTerminating, norm(map[string]int64{foo: 1})),
+		one("term-foo-tiny", world.StTerminating, tiny(map[string]int64{foo: 1})),
+		one("term-mig", world.StTerminating, norm(map[string]int64{mig: 1})),
+		one("binding-foo", world.StBinding, norm(map[string]int64{foo: 1})),
+		one("term-besteffort", world.StTerminating, world.Shape{}),
+	}
+	lays := []nodeLayout{
+		{"ext-1n", []world.NodeOpt{{Name: "n1", CPU: "4", Mem: "8Gi", Pods: 3, GPUs: 1, GPUMemMiB: 40000, Extra: map[string]int64{foo: 1, mig: 1}}}},
+		{"ext-2n", []world.NodeOpt{{Name: "n1", CPU: "4", Mem: "8Gi", Pods: 2, GPUs: 1, GPUMemMiB: 40000, Extra: map[string]int64{foo: 2, mig: 1}}, {Name: "n2", CPU: "2", Mem: "8Gi", Pods: 2, Extra: map[string]int64{foo: 1}}}},
+	}
+	k := 3
+	if tier == "thorough" {
+		k = 4
+	}
+	var out []clustermc.Scenario
+	cfgs := []schedrun.Config{{}, {Placement: "spread", NoConsolidation: true}}
+	for _, lay := range lays {
+		for _, pick := range multisetsUpTo(len(menu), k) {
+			pending := false
+			tags := ""
+			for _, i := range pick {
+				if menu[i].pods[0].State == "" {
+					pending = true
+				}
+				tags += menu[i].tag + ","
+			}
+			if !pending {
+				continue
+			}
+			out = append(out, clustermc.Scenario{Name: lay.tag + ":" + tags, World: buildMenuWorld(lay, menu, pick), Configs: cfgs})
+		}
+	}
+	return out
+}
+
 func C01() *clustermc.Family {
 	return &clustermc.Family{
 		Property:  "C01",
-		Scenarios: capScenarios,
+		Scenarios: func(tier string) []clustermc.Scenario { return append(capScenarios(tier), extScenarios(tier)...) },
 		Depth: func(tier string) int {
 			if tier == "thorough" {
 				return 4
